@@ -30,7 +30,7 @@ ASSUMPTIONS = [
     'std atomics and Mutex implement the Rust memory model; raffle::CheckingParameters::check is pure',
 ]
 
-FLOORS = {'R13.1': 9, 'R13.2': 4, 'R13.3': 4, 'R13.4': 2, 'R13.5': 6, 'R13.6': 3}
+FLOORS = {'R13.1': 8, 'R13.2': 4, 'R13.3': 5, 'R13.4': 2, 'R13.5': 6, 'R13.6': 3}
 
 STRONG_LOAD = {'Acquire', 'SeqCst'}
 STRONG_STORE = {'Release', 'SeqCst'}
@@ -152,6 +152,24 @@ def r13_3(cx):
                         good = edge
         cx.check(good is not None, 'validated-return', fn, fn.loc(rb), 'return dominated by the equal edge bb%s->bb%s of the sequence re-check' % (good or ('?', '?')),
                  fail_detail='a return of snapshot is not dominated by sequence == re-loaded sequence')
+    # every sequence value the reader relies on was loaded with at least Acquire, also when it goes through an accessor
+    srcs = []
+    for b in sorted(fn.live_blocks()):
+        if fn.term(b)['k'] != 'switch' or fn.bool_edges(b) is None:
+            continue
+        rel = as_relation((fn.switch_expr(b), True))
+        if rel and rel[0] in ('Eq', 'Ne'):
+            for side in (rel[1], rel[2]):
+                for alt in phi_alts(side):
+                    if m.is_seq_load(alt):
+                        srcs.append(alt)
+    if idx is not None and idx.strip().kind == 'binop':
+        for alt in phi_alts(idx.strip().a):
+            if m.is_seq_load(alt):
+                srcs.append(alt)
+    weak = sorted({'%s (%s)' % (short(a.strip().op), m.seq_load_ordering(a)) for a in srcs if m.seq_load_ordering(a) not in STRONG_LOAD})
+    cx.check(bool(srcs) and not weak, 'reader-loads-acquire', fn, None, 'every sequence value used to index or validate was loaded with Acquire or stronger (%d sources)' % len(srcs),
+             fail_detail='snapshot indexes or validates with a sequence value obtained through a weaker load: %s' % weak)
     # the returned pair comes from that one slot read
     ret = fn.local_expr(0, []).strip()
     ok = ret.kind == 'agg' and len(ret.args) == 2 and all(any(c.pos == rd.pos for c in a.calls(m.slot_snapshot.name)) for a in ret.args)
